@@ -50,6 +50,7 @@ PostAtoms == { Cmp("eq", Id0("n"), IntL(1)), Cmp("eq", Id0("title"), SL("a")), C
                Cmp("eq", P("author", <<"home", "name">>), NullL), Cmp("eq", P("author", <<"home", "k">>), IntL(1)),
                Bool("or", Cmp("eq", P("author", <<"home", "name">>), SL("x")), Cmp("eq", Id0("n"), IntL(1))),
                Cmp("eq", P("author", <<"org", "lead", "name">>), P("author", <<"name">>)),
+               Cmp("eq", P("author", <<"boss">>), IntL(2)), Cmp("eq", P("author", <<"org">>), NullL), Cmp("eq", P("author", <<"boss", "org">>), IntL(1)),
                Cmp("eq", P("author", <<"boss", "boss", "name">>), SL("ann")), Cmp("ne", P("author", <<"boss", "rank">>), P("author", <<"rank">>)),
                Bool("and", Cmp("eq", P("info", <<"tag">>), SL("p")), Cmp("ne", P("author", <<"info", "tag">>), SL("p"))),
                Coll(Id0("comments"), "any", None), Coll(Id0("authors"), "any", None), Coll(P("author", <<"posts">>), "any", None),
@@ -71,6 +72,9 @@ PostBrackets == { Coll(Id0("comments"), q, Lam(cV, HC)) : q \in {"any", "all"} }
            \cup { Coll(Id0("authors"), q, Lam(eV, HE)) : q \in {"any", "all"} }
            \cup { Coll(P("author", <<"posts">>), q, Lam(pV, HP)) : q \in {"any", "all"} }
 AuthorAtoms == { Cmp("eq", P("home", <<"name">>), NullL),
+                 \* paths that END in a relationship: the comparison is with its foreign key
+                 Cmp("eq", Id0("org"), IntL(1)), Cmp("eq", P("boss", <<"boss">>), IntL(3)), Cmp("eq", P("boss", <<"org">>), IntL(1)),
+                 Cmp("eq", P("boss", <<"boss", "boss">>), NullL), Cmp("ne", P("home", <<"lead">>), IntL(2)),
                  \* a self-referential relationship navigated one, two and three times
                  Cmp("eq", P("boss", <<"name">>), SL("bob")), Cmp("eq", P("boss", <<"boss", "name">>), NullL),
                  Cmp("eq", P("boss", <<"boss", "boss", "name">>), NullL), Cmp("gt", P("boss", <<"boss", "boss", "rank">>), IntL(1)),
